@@ -112,13 +112,43 @@ def run_units(c, facts, rule_prefix='C16', scope=None, must=None, floors=True):
         c.floor(R1, 'functions analysed', len([q for q in (scope or SCOPE) if facts.fn(q)]), len(must or []))
 
 
+def scan_views(facts, fn):
+    """the function and - for a scan written as a stateful closure handed to an iterator adaptor - its closures with the
+    captured counters as locals; each with the solved units"""
+    out = []
+    u = U.Units(fn).solve()
+    out.append((fn, u))
+    for cl in facts.closures_of(fn):
+        if not cl.mir:
+            continue
+        view, caps = facts.closure_flat(cl)
+        if not caps:
+            continue
+        uv = U.Units(view)
+        for l, pl in caps.items():
+            if pl and pl.get('proj'):
+                fu = U.field_unit(pl)
+                if fu and fu != 'tuple':
+                    uv.set(l, fu, 'captured field')
+            elif pl and 'l' in pl and u.unit.get(pl['l']) not in (None, 'X'):
+                uv.set(l, u.unit[pl['l']], 'captured local')
+        out.append((view, uv.solve()))
+    return out
+
+
 def r3_clamp(c, facts):
     """once the requested line is reached the line counter never advances: a column past the end of a line clamps there"""
     import mirflow as MF
     R = c.rule('C16.R3', 'CLAMP: on the requested line the scan stops at the line break (the line counter cannot advance past the requested line)')
-    fn = c.anchor(R, 'oal_client::lsp::unicode::position_to_utf8')
-    u = U.Units(fn).solve()
-    incs = [(acc, sb) for acc, ln, inc, unit, sb in u.accumulators() if unit == 'L']
+    fn0 = c.anchor(R, 'oal_client::lsp::unicode::position_to_utf8')
+    fn, u, incs, cmps = fn0, None, [], []
+    for view, uv in scan_views(facts, fn0):
+        vi = [(acc, sb) for acc, ln, inc, unit, sb in uv.accumulators() if unit == 'L']
+        if vi:
+            fn, u, incs = view, uv, vi
+            break
+    if u is None:
+        u = U.Units(fn0).solve()
     cmps = []
     for b, blk in fn.blocks():
         sw = blk['term']
@@ -360,9 +390,13 @@ def r10_monotone_column(c, facts, rule='C16.R10'):
     equal to it - otherwise the start of a range can land behind its end and String::replace_range panics"""
     import mirflow as MF
     R = c.rule(rule, 'MONOTONE: the UTF-16 column counter is compared with the requested column by an ordering, never by equality')
-    fn = c.anchor(R, 'oal_client::lsp::unicode::position_to_utf8')
-    u = U.Units(fn).solve()
-    accs = {acc for acc, ln, inc, unit, sb in u.accumulators() if unit == 'U' and inc.get('o') != 'const'}
+    fn0 = c.anchor(R, 'oal_client::lsp::unicode::position_to_utf8')
+    fn, u, accs = fn0, None, set()
+    for view, uv in scan_views(facts, fn0):
+        va = {acc for acc, ln, inc, unit, sb in uv.accumulators() if unit == 'U' and inc.get('o') != 'const'}
+        if va:
+            fn, u, accs = view, uv, va
+            break
     c.floor(R, 'UTF-16 column counters in position_to_utf8', len(accs), 1)
     idx = MF.defs_index(fn)
     eq = False
@@ -377,6 +411,13 @@ def r10_monotone_column(c, facts, rule='C16.R10'):
                 if o and 'l' in o and (o['l'] in accs or accs & MF.slice_back(fn, o['l'], idx, through_calls=False)['locals']):
                     involved = True
             other_is_column = any(o and 'l' in o and MF.field_path(o)[-1:] == ['character'] for o in ops) or any(o and 'l' in o and any(MF.field_path(x['rv'].get('op', {}))[-1:] == ['character'] for k, _, x in idx.get(o['l'], []) if k == 'assign' and x['rv']['r'] == 'use') for o in ops)
+            if not other_is_column and u is not None and fn is not fn0:
+                # in a closure view the requested column is a captured value: a UTF-16 quantity that is not the counter
+                for o in ops:
+                    if o and 'l' in o and o['l'] not in accs and not (accs & MF.slice_back(fn, o['l'], idx, through_calls=False)['locals']):
+                        srcs = {o['l']} | MF.slice_back(fn, o['l'], idx, through_calls=False)['locals']
+                        if any(u.unit.get(x) == 'U' for x in srcs):
+                            other_is_column = True
             if involved and other_is_column:
                 if st['rv']['op'] in ('Eq', 'Ne'):
                     eq = True
